@@ -437,7 +437,11 @@ var c19Mustaches = []string{
 // mustaches whose source form and parsed form differ in a way that matters for
 // re-tokenisation (raw "<b", entity-escaped "<" before a letter, escaped character
 // references); drawn rarely so that they do not hide everything else in a case
-var c19MustachesRisky = []string{"{{ a<b }}", "{{ a &lt;b }}", "{{ \"&amp;lt;\" }}", "{{ \"</p>\" }}", "{{ \"&lt;/i&gt;\" }}", "{{ x &amp;amp; y }}", "{{ \"&amp;#169;\" }}"}
+// (A raw '<' directly followed by a letter or '/' is not generated inside a
+// mustache: to the HTML parser that is a tag, the source then simply contains a
+// <b ...> element with odd attributes or a stray end tag, and an unclosed
+// formatting element can make the DOM unserialisable - nested forms and the like.)
+var c19MustachesRisky = []string{"{{ a<1 }}", "{{ a &lt;b }}", "{{ \"&amp;lt;\" }}", "{{ \"&lt;/p&gt;\" }}", "{{ \"&lt;/i&gt;\" }}", "{{ x &amp;amp; y }}", "{{ \"&amp;#169;\" }}"}
 var c19AttrNames = []string{"class", "id", "title", "href", "data-x", "data-json", "style", "v-if", "v-else-if", "v-for", "v-show", "v-html", "v-text", "v-model",
 	":class", ":style", ":href", ":disabled", ":key", "@click", "@submit.prevent", "v-bind:title", "v-on:click", "v-slot:item", "#default", "[v-if]", "[:data]", "include", "name", "alt", "placeholder", "aria-label", "CamelCase", "x:y"}
 var c19BareAttrs = []string{"v-else", "v-once", "disabled", "checked", "required", "v-keep", "hidden", "v-cloak"}
